@@ -498,3 +498,85 @@ _BY_RANGE = (
 )
 T("C17", "twin-r3-table-range-of-option-values", G, "", "", edits=_generated(_BY_RANGE.format(k="1"), "import struct\n"))
 M("C17", "r3-table-range-of-option-values-short", G, "", "", "C17.R3", edits=_generated(_BY_RANGE.format(k="0"), "import struct\n"))
+
+
+# ------------------------------------------------------------------------------------------------ R7: raw or XorEncoded
+_FALLBACK = (
+    "        try:\n"
+    "            fxor = XorEncodedFile.from_file(fobj)\n"
+    "        except ValueError:\n"
+    "            fxor = fobj\n"
+    "        for grconfig in iter_guardrail_configs_with_beacon(fxor):\n"
+)
+_FOR_GR = "        for grconfig in iter_guardrail_configs_with_beacon(fxor):\n"
+_FIRST_LOOP = "        for config_block, extra_info in iter_beacon_config_blocks(fobj, xor_keys=xor_keys, all_xor_keys=all_xor_keys):\n"
+# breaking: the fallback scans the raw file object (no attempt at all)
+M("C17", "r7-fallback-scans-raw-file", B, _FALLBACK, "        fxor = fobj\n" + _FOR_GR, "C17.R7")
+M("C17", "r7-fallback-iterates-raw-parameter", B, _FOR_GR, "        for grconfig in iter_guardrail_configs_with_beacon(fobj):\n", "C17.R7")
+# breaking: the view is opened but the raw object is what is scanned
+M("C17", "r7-view-opened-but-not-used", B, _FALLBACK,
+  "        try:\n            XorEncodedFile.from_file(fobj)\n        except ValueError:\n            pass\n        fxor = fobj\n" + _FOR_GR, "C17.R7")
+# breaking: the attempt depends on a flag that is constant wherever the fallback is reached (set only on the returning path)
+M("C17", "r7-attempt-behind-dead-flag", B, "", "", "C17.R7", edits=[
+    (B, _FIRST_LOOP, "        seen_encoded = False\n" + _FIRST_LOOP + "            seen_encoded = bool(extra_info[\"xorencoded\"])\n"),
+    (B, _FALLBACK, "        fxor = fobj\n        if seen_encoded:\n            try:\n                fxor = XorEncodedFile.from_file(fobj)\n            except ValueError:\n                pass\n" + _FOR_GR),
+])
+# breaking: the attempt depends on a caller option that does not look at the payload
+M("C17", "r7-attempt-only-with-all-xor-keys", B, _FALLBACK,
+  "        fxor = fobj\n        if all_xor_keys:\n            try:\n                fxor = XorEncodedFile.from_file(fobj)\n            except ValueError:\n                pass\n" + _FOR_GR, "C17.R7")
+# twins: default first and overwrite on success; flag for "decoded"; attempt hoisted to the top of the function
+T("C17", "twin-r7-default-then-overwrite", B, _FALLBACK,
+  "        fxor = fobj\n        try:\n            fxor = XorEncodedFile.from_file(fobj)\n        except ValueError:\n            pass\n" + _FOR_GR)
+T("C17", "twin-r7-done-flag", B, _FALLBACK,
+  "        decoded = False\n        try:\n            view = XorEncodedFile.from_file(fobj)\n            decoded = True\n        except ValueError:\n            pass\n"
+  "        if decoded:\n            fxor = view\n        else:\n            fxor = fobj\n" + _FOR_GR)
+T("C17", "twin-r7-try-else", B, _FALLBACK,
+  "        try:\n            view = XorEncodedFile.from_file(fobj)\n        except ValueError:\n            fxor = fobj\n        else:\n            fxor = view\n" + _FOR_GR)
+# the attempt is selected by a predicate that looks at the payload: not decided (silent)
+T("C17", "twin-r7-attempt-behind-payload-predicate", B, _FALLBACK,
+  "        fxor = fobj\n        if fobj.read(4) != b\"MZ\\x90\\x00\":\n            try:\n                fxor = XorEncodedFile.from_file(fobj)\n            except ValueError:\n                pass\n" + _FOR_GR)
+
+
+# ------------------------------------------------------------------- R4: windows cut out of bulk-read chunks by a generator
+_SCAN_HEAD = (
+    "    offset = 0\n"
+    "    while True:\n"
+    "        fh.seek(offset)\n"
+    "        block = fh.read(size * 2)\n"
+    "        if not block:\n"
+    "            break\n"
+    "        a, b = block[:size], block[size:]\n"
+)
+_SCAN_DEF = "def iter_guardrail_configs(fh: BinaryIO, xorkey: bytes = b\"\\x8a\") -> Iterator[GuardrailMetadata]:\n"
+_WINDOWS = (
+    "CHUNK = 1 << 15\n\n\n"
+    "def _windows(stream, width):\n"
+    "    start = 0\n"
+    "    while True:\n"
+    "        stream.seek(start)\n"
+    "        data = stream.read({read})\n"
+    "        if not data:\n"
+    "            break\n"
+    "        for i in range({positions}):\n"
+    "            yield start + i, data[i : i + width], {second}\n"
+    "        start += {stride}\n\n\n"
+)
+
+
+def _chunked(read="CHUNK + 2 * width - 1", positions="min(len(data), CHUNK)", second="data[i + width : i + 2 * width]", stride="CHUNK"):
+    return [
+        (G, _SCAN_DEF, _WINDOWS.format(read=read, positions=positions, second=second, stride=stride) + _SCAN_DEF),
+        (G, _SCAN_HEAD, "    for offset, a, b in _windows(fh, size):\n"),
+        (G, "                offset += 1\n                continue\n", "                continue\n"),
+        (G, "            )\n        offset += 1\n", "            )\n"),
+    ]
+
+
+T("C17", "twin-r4-chunked-generator-scan", G, "", "", edits=_chunked())
+T("C17", "twin-r4-chunked-generator-scan-wider-lookahead", G, "", "", edits=_chunked(read="CHUNK + 2 * width", second="bytes(memoryview(data)[i + width : i + width * 2])"))
+# breaking: the look-ahead covers one window only / nothing: the second half is truncated for the last offsets of a chunk
+M("C17", "r4-chunked-lookahead-one-window-short", G, "", "", "C17.R4", edits=_chunked(read="CHUNK + width - 1"))
+M("C17", "r4-chunked-no-lookahead", G, "", "", "C17.R4", edits=_chunked(read="CHUNK", positions="len(data)"))
+# breaking: the chunks advance further than the positions tested / windows not adjacent
+M("C17", "r4-chunked-stride-skips-offsets", G, "", "", "C17.R4", edits=_chunked(stride="CHUNK + width"))
+M("C17", "r4-chunked-second-window-shifted", G, "", "", "C17.R4", edits=_chunked(second="data[i + width + 1 : i + 2 * width + 1]"))
